@@ -200,6 +200,8 @@ def sexp(node, inline):
             return "SNone"
         if node.value is True or node.value is False:
             return f"(SName {coq_string(str(node.value))})"
+        if isinstance(node.value, str):
+            return f"(SStr {coq_string(node.value)})"                    # method == "average"
         need(isinstance(node.value, (int, float)) and not isinstance(node.value, bool),
              f"skeleton: unsupported constant {node.value!r}")
         return f"(SNum {coq_q(node.value)})"
@@ -320,155 +322,387 @@ def _has_flag_assign(node):
     return False
 
 
+# ---------------------------------------------------------------- array programs (Arr.v)
+
+FLOAT_DTYPES_OK = ("float64", "float", "double")      # anything else (e.g. "f", float32) is refused: fail-closed
+ARR_UNARY = {"abs": "abs", "absolute": "abs", "sign": "sign", "diff": "diff", "masked_invalid": "masked_invalid"}
+ARR_BIN = {ast.Add: "+", ast.Sub: "-", ast.Mult: "*", ast.Div: "/"}
+
+
+def _call_name(node):
+    f = node.func
+    return f.attr if isinstance(f, ast.Attribute) else getattr(f, "id", None)
+
+
+def _is_num(node):
+    try:
+        const_num(node)
+        return True
+    except TranslateError:
+        return False
+
+
+def sbound(n):
+    if n is None:
+        return "None"
+    v = const_num(n)
+    need(isinstance(v, int), f"array program: non-integer slice bound {v!r}")
+    return f"(Some (FromEnd {-v}%nat))" if v < 0 else f"(Some (FromStart {v}%nat))"
+
+
+def slice2(sl):
+    need(isinstance(sl, ast.Slice) and sl.step is None, "array program: unsupported subscript")
+    return f"{sbound(sl.lower)} {sbound(sl.upper)}"
+
+
+def _dtype_ok(call):
+    """np.ma.zeros(x.size, dtype=...) : only double precision is accepted"""
+    for kw in call.keywords:
+        need(kw.arg == "dtype", f"array program: unexpected keyword {kw.arg} in zeros()")
+        v = kw.value
+        name = v.value if isinstance(v, ast.Constant) else (v.attr if isinstance(v, ast.Attribute) else getattr(v, "id", None))
+        need(name in FLOAT_DTYPES_OK, f"array program: zeros() with dtype {name!r} is not double precision")
+    need(len(call.args) == 1 and isinstance(call.args[0], ast.Attribute) and call.args[0].attr == "size",
+         "array program: zeros() must be sized by <array>.size")
+
+
+def _diff_secs(node):
+    """np.diff(t).astype("timedelta64[s]").astype(float) -> t, else None"""
+    if not (isinstance(node, ast.Call) and _call_name(node) == "astype" and len(node.args) == 1
+            and isinstance(node.args[0], ast.Name) and node.args[0].id == "float"):
+        return None
+    inner = node.func.value
+    if not (isinstance(inner, ast.Call) and _call_name(inner) == "astype" and len(inner.args) == 1
+            and isinstance(inner.args[0], ast.Constant) and inner.args[0].value == "timedelta64[s]"):
+        return None
+    d = inner.func.value
+    if isinstance(d, ast.Call) and _call_name(d) == "diff" and len(d.args) == 1 and isinstance(d.args[0], ast.Name):
+        return d.args[0].id
+    return None
+
+
+def aexp(node):
+    if isinstance(node, ast.Name):
+        return f"(AVar {coq_string(node.id)})"
+    if isinstance(node, ast.Subscript):
+        return f"(ASl {slice2(node.slice)} {aexp(node.value)})"
+    if isinstance(node, ast.BinOp) and type(node.op) in ARR_BIN:
+        op = coq_string(ARR_BIN[type(node.op)])
+        if _is_num(node.right):
+            return f"(ABinC {op} {aexp(node.left)} {coq_q(const_num(node.right))})"
+        return f"(ABin {op} {aexp(node.left)} {aexp(node.right)})"
+    if isinstance(node, ast.Call):
+        t = _diff_secs(node)
+        if t is not None:
+            return f"(ADiffSecs {coq_string(t)})"
+        name = _call_name(node)
+        if name == "zeros":
+            _dtype_ok(node)
+            return "AZeros"
+        if name == "minimum":
+            need(len(node.args) == 2 and not node.keywords, "array program: minimum() arity")
+            return f"(ABin \"minimum\" {aexp(node.args[0])} {aexp(node.args[1])})"
+        if name in ARR_UNARY:
+            need(len(node.args) == 1 and not node.keywords, f"array program: {name}() arity")
+            return f"(AUn {coq_string(ARR_UNARY[name])} {aexp(node.args[0])})"
+    raise TranslateError(f"array program: unsupported expression {ast.dump(node)[:200]}")
+
+
+def acond(node):
+    need(isinstance(node, ast.Compare) and len(node.ops) == 1 and type(node.ops[0]) in CMP_OPS and _is_num(node.comparators[0]),
+         f"array program: unsupported condition {ast.dump(node)[:200]}")
+    return f"(ACmp {coq_string(CMP_OPS[type(node.ops[0])])} {aexp(node.left)} {coq_q(const_num(node.comparators[0]))})"
+
+
+def array_program(fn, targets):
+    """the statements of `fn` that assign to one of the float arrays `targets`, in source order, with their guards"""
+    prog = []
+
+    def walk(stmts, guards):
+        guards = list(guards)
+        for st in stmts:
+            if isinstance(st, ast.Assign) and len(st.targets) == 1:
+                tg = st.targets[0]
+                g = "[" + "; ".join(guards) + "]"
+                if isinstance(tg, ast.Name) and tg.id in targets:
+                    prog.append(f"AAssign {g} {coq_string(tg.id)} {aexp(st.value)}")
+                elif isinstance(tg, ast.Subscript) and isinstance(tg.value, ast.Name) and tg.value.id in targets:
+                    prog.append(f"ASetSl {g} {coq_string(tg.value.id)} {slice2(tg.slice)} {aexp(st.value)}")
+                elif isinstance(tg, ast.Subscript) and isinstance(tg.value, ast.Subscript) \
+                        and isinstance(tg.value.value, ast.Name) and tg.value.value.id in targets:
+                    prog.append(f"ASetSlWhere {g} {coq_string(tg.value.value.id)} {slice2(tg.value.slice)} "
+                                f"{acond(tg.slice)} {coq_q(const_num(st.value))}")
+                else:
+                    base = tg
+                    while isinstance(base, (ast.Subscript, ast.Attribute)):
+                        base = base.value
+                    need(not (isinstance(base, ast.Name) and base.id in targets),
+                         f"array program: unsupported assignment to a tracked array, line {st.lineno}")
+            elif isinstance(st, (ast.AugAssign, ast.AnnAssign)):
+                for n in ast.walk(st.target):
+                    need(not (isinstance(n, ast.Name) and n.id in targets),
+                         f"array program: augmented assignment to a tracked array, line {st.lineno}")
+            elif isinstance(st, ast.If):
+                t = sexp(st.test, {}) if _translatable(st.test, {}) else None
+                if t is None:
+                    need(not _assigns_to(st, targets), f"array program: tracked array assigned under an untranslatable guard, line {st.lineno}")
+                    continue
+                walk(st.body, guards + [t])
+                walk(st.orelse, guards + [f"(SInv {t})"])
+                if st.body and isinstance(st.body[-1], ast.Return) and not st.orelse:
+                    guards.append(f"(SInv {t})")
+            elif isinstance(st, ast.With):
+                walk(st.body, guards)
+            elif isinstance(st, (ast.For, ast.While, ast.Try, ast.FunctionDef)):
+                need(not _assigns_to(st, targets), f"array program: tracked array assigned inside a loop / try / nested function, line {st.lineno}")
+    walk(fn.body, [])
+    return prog
+
+
+def _assigns_to(node, targets):
+    for n in ast.walk(node):
+        if isinstance(n, (ast.Assign, ast.AugAssign)):
+            tgs = n.targets if isinstance(n, ast.Assign) else [n.target]
+            for t in tgs:
+                while isinstance(t, (ast.Subscript, ast.Attribute)):
+                    t = t.value
+                if isinstance(t, ast.Name) and t.id in targets:
+                    return True
+    return False
+
+
 def flist(names):
     return "[" + "; ".join(names) + "]"
 
 
 def generate(repo):
-    qartod = parse(repo, "ioos_qc/qartod.py")
-    argo = parse(repo, "ioos_qc/argo.py")
-    axds = parse(repo, "ioos_qc/axds.py")
-    utils = parse(repo, "ioos_qc/utils.py")
-    config = parse(repo, "ioos_qc/config.py")
+    """-> (text of Generated.v, [(item, error message)]).  Every definition is translated on its own: an item the
+    translator can no longer read is LEFT OUT (with a comment in its place), so that exactly the Coq files that
+    need it stop compiling, and the other definitions are still regenerated from the current source."""
+    errors = []
+
+    def load(rel):
+        try:
+            return parse(repo, rel)
+        except (TranslateError, SyntaxError, OSError) as e:
+            errors.append((rel, f"source does not parse: {e}"))
+            return None
+    qartod = load("ioos_qc/qartod.py")
+    argo = load("ioos_qc/argo.py")
+    axds = load("ioos_qc/axds.py")
+    utils = load("ioos_qc/utils.py")
+    config = load("ioos_qc/config.py")
+    fx = load("ioos_qc/config_creator/fx_parser.py")
+    cc = load("ioos_qc/config_creator/config_creator.py")
 
     L = []
     w = L.append
+
+    def item(name, fn):
+        try:
+            out = fn()
+            for line in (out if isinstance(out, list) else [out]):
+                w(line)
+        except TranslateError as e:
+            errors.append((name, str(e)))
+            w(f"(* TRANSLATE-ERROR: {name} could not be generated from the current source *)")
+        except (AttributeError, TypeError, KeyError, IndexError, ValueError) as e:      # a module that did not parse, an unexpected node
+            errors.append((name, f"{type(e).__name__}: {e}"))
+            w(f"(* TRANSLATE-ERROR: {name} could not be generated from the current source *)")
+
+    def fn_of(mod, name, cls=None):
+        need(mod is not None, "module did not parse")
+        return find_func(mod, name, cls)
+
     w("(* GENERATED by tools/gen_consts.py from /repo — do not edit. *)")
-    w("From IoosQc Require Import Base Skel.")
+    w("From IoosQc Require Import Base Skel Arr.")
     w("From Coq Require Import String.")
     w("Open Scope string_scope.")
     w("")
-    codes = flag_codes(qartod)
-    w("Definition flag_codes : list (flag * Z) := ["
-      + "; ".join(f"({n}, {coq_z(v)})" for n, v in codes) + "].")
-    prios, fill = priorities(qartod)
-    w(f"Definition priorities : list flag := {flist(prios)}.")
-    w(f"Definition compare_fill : flag := {fill}.")
+    item("flag_codes", lambda: "Definition flag_codes : list (flag * Z) := ["
+         + "; ".join(f"({n}, {coq_z(v)})" for n, v in flag_codes(qartod)) + "].")
+
+    def _prios():
+        prios, fill = priorities(qartod)
+        return [f"Definition priorities : list flag := {flist(prios)}.", f"Definition compare_fill : flag := {fill}."]
+    item("priorities", _prios)
     w("")
     # order of flag assignments per test
     tests = [
-        (qartod, "location_test"), (qartod, "gross_range_test"), (qartod, "spike_test"),
-        (qartod, "rate_of_change_test"), (qartod, "flat_line_test"), (qartod, "attenuated_signal_test"),
-        (qartod, "density_inversion_test"), (argo, "pressure_increasing_test"), (argo, "speed_test"),
-        (axds, "valid_range_test"),
+        ("qartod", "location_test"), ("qartod", "gross_range_test"), ("qartod", "spike_test"),
+        ("qartod", "rate_of_change_test"), ("qartod", "flat_line_test"), ("qartod", "attenuated_signal_test"),
+        ("qartod", "density_inversion_test"), ("argo", "pressure_increasing_test"), ("argo", "speed_test"),
+        ("axds", "valid_range_test"),
     ]
-    for mod, name in tests:
-        fn = find_func(mod, name)
-        w(f"Definition assign_order_{name} : list flag := {flist(assign_order(fn))}.")
-    w(f"Definition assign_order_climatology_check : list flag := "
-      f"{flist(assign_order(find_func(qartod, 'check', 'ClimatologyConfig')))}.")
+    mods = {"qartod": qartod, "argo": argo, "axds": axds}
+    for mn, name in tests:
+        item(f"assign_order_{name}", lambda mn=mn, name=name:
+             f"Definition assign_order_{name} : list flag := {flist(assign_order(fn_of(mods[mn], name)))}.")
+    item("assign_order_climatology_check", lambda: "Definition assign_order_climatology_check : list flag := "
+         f"{flist(assign_order(fn_of(qartod, 'check', 'ClimatologyConfig')))}.")
     w("")
+
     # defaults
-    bbox = func_default(find_func(qartod, "location_test"), "bbox")
-    need(isinstance(bbox, ast.Tuple) and len(bbox.elts) == 4, "location_test bbox default must be a 4-tuple")
-    w("Definition default_bbox : list Q := [" + "; ".join(coq_q(const_num(e)) for e in bbox.elts) + "].")
-    w(f"Definition flat_line_default_tolerance : Q := "
-      f"{coq_q(const_num(func_default(find_func(qartod, 'flat_line_test'), 'tolerance')))}.")
-    sm = func_default(find_func(qartod, "spike_test"), "method")
-    need(isinstance(sm, ast.Constant) and isinstance(sm.value, str), "spike_test method default")
-    w(f"Definition spike_default_method : string := {coq_string(sm.value)}.")
-    ct = func_default(find_func(qartod, "attenuated_signal_test"), "check_type")
-    need(isinstance(ct, ast.Constant) and isinstance(ct.value, str), "attenuated check_type default")
-    w(f"Definition attenuated_default_check_type : string := {coq_string(ct.value)}.")
-    vr = find_func(axds, "valid_range_test")
-    si, ei = func_default(vr, "start_inclusive"), func_default(vr, "end_inclusive")
-    need(all(isinstance(x, ast.Constant) and isinstance(x.value, bool) for x in (si, ei)), "valid_range inclusivity defaults")
-    w(f"Definition valid_range_default_start_inclusive : bool := {str(si.value).lower()}.")
-    w(f"Definition valid_range_default_end_inclusive : bool := {str(ei.value).lower()}.")
+    def _bbox():
+        bbox = func_default(fn_of(qartod, "location_test"), "bbox")
+        need(isinstance(bbox, ast.Tuple) and len(bbox.elts) == 4, "location_test bbox default must be a 4-tuple")
+        return "Definition default_bbox : list Q := [" + "; ".join(coq_q(const_num(e)) for e in bbox.elts) + "]."
+    item("default_bbox", _bbox)
+    item("flat_line_default_tolerance", lambda: "Definition flat_line_default_tolerance : Q := "
+         f"{coq_q(const_num(func_default(fn_of(qartod, 'flat_line_test'), 'tolerance')))}.")
+
+    def _sm():
+        sm = func_default(fn_of(qartod, "spike_test"), "method")
+        need(isinstance(sm, ast.Constant) and isinstance(sm.value, str), "spike_test method default")
+        return f"Definition spike_default_method : string := {coq_string(sm.value)}."
+    item("spike_default_method", _sm)
+
+    def _ct():
+        ct = func_default(fn_of(qartod, "attenuated_signal_test"), "check_type")
+        need(isinstance(ct, ast.Constant) and isinstance(ct.value, str), "attenuated check_type default")
+        return f"Definition attenuated_default_check_type : string := {coq_string(ct.value)}."
+    item("attenuated_default_check_type", _ct)
+
+    def _incl():
+        vr = fn_of(axds, "valid_range_test")
+        si, ei = func_default(vr, "start_inclusive"), func_default(vr, "end_inclusive")
+        need(all(isinstance(x, ast.Constant) and isinstance(x.value, bool) for x in (si, ei)), "valid_range inclusivity defaults")
+        return [f"Definition valid_range_default_start_inclusive : bool := {str(si.value).lower()}.",
+                f"Definition valid_range_default_end_inclusive : bool := {str(ei.value).lower()}."]
+    item("valid_range_default_inclusive", _incl)
+
     # WEEK_PERIODS, NOTEVAL
-    for n in qartod.body:
-        if isinstance(n, ast.Assign) and isinstance(n.targets[0], ast.Name):
-            if n.targets[0].id == "WEEK_PERIODS":
-                need(isinstance(n.value, ast.List), "WEEK_PERIODS must be a list")
-                w("Definition week_periods : list string := ["
-                  + "; ".join(coq_string(e.value) for e in n.value.elts) + "].")
-            if n.targets[0].id == "NOTEVAL_VALUE":
-                w(f"Definition noteval_value : flag := {flag_ref(n.value)}.")
+    def _week():
+        need(qartod is not None, "module did not parse")
+        out = []
+        for n in qartod.body:
+            if isinstance(n, ast.Assign) and isinstance(n.targets[0], ast.Name):
+                if n.targets[0].id == "WEEK_PERIODS":
+                    need(isinstance(n.value, ast.List), "WEEK_PERIODS must be a list")
+                    out.append("Definition week_periods : list string := ["
+                               + "; ".join(coq_string(e.value) for e in n.value.elts) + "].")
+                if n.targets[0].id == "NOTEVAL_VALUE":
+                    out.append(f"Definition noteval_value : flag := {flag_ref(n.value)}.")
+        need(len(out) == 2, "WEEK_PERIODS / NOTEVAL_VALUE not found")
+        return out
+    item("week_periods_noteval", _week)
     w("")
+
     # cf_safe_name regex literals
-    lits = [s for s in regex_literals(find_func(utils, "cf_safe_name")) if s.startswith("^[") or s.startswith("[^")]
-    need(len(lits) == 2, f"cf_safe_name: expected two regex literals, got {lits}")
-    w("Definition cf_regex_literals : list string := [" + "; ".join(coq_string(s) for s in lits) + "].")
+    def _cf():
+        lits = [x for x in regex_literals(fn_of(utils, "cf_safe_name")) if x.startswith("^[") or x.startswith("[^")]
+        need(len(lits) == 2, f"cf_safe_name: expected two regex literals, got {lits}")
+        return "Definition cf_regex_literals : list string := [" + "; ".join(coq_string(x) for x in lits) + "]."
+    item("cf_regex_literals", _cf)
+
     # Config layout dispatch
-    init = find_func(config, "__init__", "Config")
-    keys = []
-    depth = None
-    for n in ast.walk(init):
-        if isinstance(n, ast.Compare) and len(n.ops) == 1:
-            if isinstance(n.ops[0], ast.In) and isinstance(n.left, ast.Constant) and isinstance(n.left.value, str):
-                keys.append(n.left.value)
-            if isinstance(n.ops[0], ast.GtE) and isinstance(n.left, ast.Call) \
-                    and isinstance(n.left.func, ast.Name) and n.left.func.id == "dict_depth":
-                depth = const_num(n.comparators[0])
-    need(depth is not None, "Config.__init__: dict_depth(...) >= N not found")
-    w("Definition layout_keys : list string := [" + "; ".join(coq_string(k) for k in keys) + "].")
-    w(f"Definition depth_threshold : nat := {depth}%nat.")
-    dsk = func_default(init, "default_stream_key")
-    w(f"Definition default_stream_key : string := {coq_string(dsk.value)}.")
+    def _layout():
+        init = fn_of(config, "__init__", "Config")
+        keys = []
+        depth = None
+        for n in ast.walk(init):
+            if isinstance(n, ast.Compare) and len(n.ops) == 1:
+                if isinstance(n.ops[0], ast.In) and isinstance(n.left, ast.Constant) and isinstance(n.left.value, str):
+                    keys.append(n.left.value)
+                if isinstance(n.ops[0], ast.GtE) and isinstance(n.left, ast.Call) \
+                        and isinstance(n.left.func, ast.Name) and n.left.func.id == "dict_depth":
+                    depth = const_num(n.comparators[0])
+        need(depth is not None, "Config.__init__: dict_depth(...) >= N not found")
+        dsk = func_default(init, "default_stream_key")
+        return ["Definition layout_keys : list string := [" + "; ".join(coq_string(k) for k in keys) + "].",
+                f"Definition depth_threshold : nat := {depth}%nat.",
+                f"Definition default_stream_key : string := {coq_string(dsk.value)}."]
+    item("config_layout", _layout)
     w("")
-    for modname, mod in (("qartod", qartod), ("argo", argo), ("axds", axds)):
-        w(f"Definition known_{modname} : list string := ["
-          + "; ".join(coq_string(x) for x in module_names(mod)) + "].")
+    for modname in ("qartod", "argo", "axds"):
+        def _known(modname=modname):
+            need(mods[modname] is not None, "module did not parse")
+            return (f"Definition known_{modname} : list string := ["
+                    + "; ".join(coq_string(x) for x in module_names(mods[modname])) + "].")
+        item(f"known_{modname}", _known)
     w("")
     # flag-assignment skeletons of the straight-line tests (meaning: Skel.run_steps; tied to the hand-written
-    # models by SkelProofs.v)
-    for mod, name in [(qartod, "gross_range_test"), (qartod, "spike_test"), (qartod, "rate_of_change_test"),
-                      (qartod, "location_test"), (qartod, "attenuated_signal_test"),
-                      (argo, "speed_test"), (axds, "valid_range_test"), (qartod, "density_inversion_test")]:
-        st = skeleton(find_func(mod, name))
-        need(st, f"skeleton of {name} is empty")
-        w(f"Definition skel_{name} : list sstep := [")
-        w(";\n".join("  " + x for x in st))
-        w("].")
+    # models by SkelP_*.v)
+    for mn, name in [("qartod", "gross_range_test"), ("qartod", "spike_test"), ("qartod", "rate_of_change_test"),
+                     ("qartod", "location_test"), ("qartod", "attenuated_signal_test"),
+                     ("argo", "speed_test"), ("axds", "valid_range_test"), ("qartod", "density_inversion_test")]:
+        def _skel(mn=mn, name=name):
+            st = skeleton(fn_of(mods[mn], name))
+            need(st, f"skeleton of {name} is empty")
+            return [f"Definition skel_{name} : list sstep := [", ";\n".join("  " + x for x in st), "]."]
+        item(f"skel_{name}", _skel)
     w("")
+    # array programs: the computation of the intermediate float arrays (meaning: Arr.run_prog; tied to the
+    # hand-written models by ArrP_*.v)
+    for mn, name, targets in [("qartod", "spike_test", ("ref", "diff")), ("qartod", "rate_of_change_test", ("roc",)),
+                              ("qartod", "density_inversion_test", ("delta",)), ("argo", "speed_test", ("speed",))]:
+        def _prog(mn=mn, name=name, targets=targets):
+            pr = array_program(fn_of(mods[mn], name), targets)
+            need(pr, f"array program of {name} is empty")
+            return [f"Definition prog_{name} : list astmt := [", ";\n".join("  " + x for x in pr), "]."]
+        item(f"prog_{name}", _prog)
+    w("")
+
     # fx parser tables
-    fx = parse(repo, "ioos_qc/config_creator/fx_parser.py")
-    cc = parse(repo, "ioos_qc/config_creator/config_creator.py")
-    opn = None
-    for n in fx.body:
-        if isinstance(n, ast.Assign) and isinstance(n.targets[0], ast.Name) and n.targets[0].id == "opn":
-            need(isinstance(n.value, ast.Dict), "opn must be a dict literal")
-            opn = []
-            for k, v in zip(n.value.keys, n.value.values):
-                need(isinstance(k, ast.Constant) and isinstance(v, ast.Attribute), "opn entry shape")
-                opn.append((k.value, v.attr))
-    need(opn is not None, "fx_parser.opn not found")
-    w("Definition fx_opn : list (string * string) := ["
-      + "; ".join(f"({coq_string(k)}, {coq_string(v)})" for k, v in opn) + "].")
-    qvc = find_class(cc, "QcVariableConfig")
-    for n in qvc.body:
-        if isinstance(n, ast.Assign) and isinstance(n.targets[0], ast.Name) \
-                and n.targets[0].id.startswith("allowed_"):
-            need(isinstance(n.value, (ast.List, ast.Tuple)), f"{n.targets[0].id} must be a list literal")
-            w(f"Definition fx_{n.targets[0].id} : list string := ["
-              + "; ".join(coq_string(e.value) for e in n.value.elts) + "].")
+    def _opn():
+        need(fx is not None, "module did not parse")
+        opn = None
+        for n in fx.body:
+            if isinstance(n, ast.Assign) and isinstance(n.targets[0], ast.Name) and n.targets[0].id == "opn":
+                need(isinstance(n.value, ast.Dict), "opn must be a dict literal")
+                opn = []
+                for k, v in zip(n.value.keys, n.value.values):
+                    need(isinstance(k, ast.Constant) and isinstance(v, ast.Attribute), "opn entry shape")
+                    opn.append((k.value, v.attr))
+        need(opn is not None, "fx_parser.opn not found")
+        return ("Definition fx_opn : list (string * string) := ["
+                + "; ".join(f"({coq_string(k)}, {coq_string(v)})" for k, v in opn) + "].")
+    item("fx_opn", _opn)
+
+    def _allowed():
+        qvc = find_class(cc, "QcVariableConfig")
+        out = []
+        for n in qvc.body:
+            if isinstance(n, ast.Assign) and isinstance(n.targets[0], ast.Name) \
+                    and n.targets[0].id.startswith("allowed_"):
+                need(isinstance(n.value, (ast.List, ast.Tuple)), f"{n.targets[0].id} must be a list literal")
+                out.append(f"Definition fx_{n.targets[0].id} : list string := ["
+                           + "; ".join(coq_string(e.value) for e in n.value.elts) + "].")
+        need(out, "QcVariableConfig.allowed_* not found")
+        return out
+    item("fx_allowed", _allowed)
     w("")
     # fingerprints (scheduling only, never used in theorems): returned separately
-    fps = {name: fingerprint(find_func(mod, name)) for mod, name in tests}
-    fps["qartod_compare"] = fingerprint(find_func(qartod, "qartod_compare"))
+    fps = {}
+    for mn, name in tests:
+        try:
+            fps[name] = fingerprint(find_func(mods[mn], name))
+        except Exception:  # noqa: BLE001
+            fps[name] = None
+    try:
+        fps["qartod_compare"] = fingerprint(find_func(qartod, "qartod_compare"))
+    except Exception:  # noqa: BLE001
+        fps["qartod_compare"] = None
     generate.fingerprints = fps
-    return "\n".join(L) + "\n"
+    return "\n".join(L) + "\n", errors
 
 
 def main():
+    import json
     repo, out = sys.argv[1], Path(sys.argv[2])
-    try:
-        text = generate(repo)
-    except TranslateError as e:
-        print(f"TRANSLATE-ERROR: {e}")
-        sys.exit(2)
-    except SyntaxError as e:
-        print(f"TRANSLATE-ERROR: source does not parse: {e}")
-        sys.exit(2)
+    text, errors = generate(repo)
     if not out.exists() or out.read_text() != text:
         out.write_text(text)
         print(f"Generated.v rewritten ({len(text)} bytes)")
     else:
         print("Generated.v unchanged")
-    import json
-    fp = out.parent.parent.parent / "build" / "fingerprints.json"
-    fp.parent.mkdir(exist_ok=True)
-    fp.write_text(json.dumps(generate.fingerprints, indent=1))
+    build = out.parent.parent.parent / "build"
+    build.mkdir(exist_ok=True)
+    (build / "fingerprints.json").write_text(json.dumps(generate.fingerprints, indent=1))
+    (build / "translate_errors.json").write_text(json.dumps(errors, indent=1))
+    for name, msg in errors:
+        print(f"TRANSLATE-ERROR: {name}: {msg}")
+    sys.exit(3 if errors else 0)
 
 
 if __name__ == "__main__":
